@@ -876,9 +876,9 @@ class CholeskySampler(object):
             dist = numpy.random.randn
         self.dist = dist
 
-        npar = mean.size
-        n1, n2 = cov.shape[0: 0 + 2]
-        if npar != cov.shape[0] or npar != cov.shape[1]:
+        npar = self.mean.size
+        n1, n2 = self.cov.shape[0: 0 + 2]
+        if npar != self.cov.shape[0] or npar != self.cov.shape[1]:
             raise ValueError(
                 "mean shape [%d] inconsistent "
                 "with cov shape [%d,%d]" % (npar, n1, n2)
